@@ -2,6 +2,7 @@
 
 use crate::ops::Op;
 use crate::world::*;
+use dashu_base::UnsignedAbs as _UA;
 use dashu_base::{Abs, Approximation, BitTest, DivEuclid, DivRemEuclid, Inverse, RemEuclid, Sign, Signed};
 use dashu_int::{IBig, UBig};
 use dashu_ratio::{RBig, Relaxed};
@@ -199,6 +200,63 @@ macro_rules! exec_rational {
                 "fract" => {
                     w.$pool[dst] = w.$pool[a].fract();
                     env.res(pid, dst);
+                }
+                "split" => {
+                    // documented as equivalent: split_at_point() and (trunc(), fract()); to_int() gives the same parts
+                    let d2 = (dst + 1) % NP;
+                    let x = &w.$pool[a];
+                    let (t, f): (IBig, $T) = match form % 3 {
+                        0 => x.clone().split_at_point(),
+                        1 => (x.trunc(), x.fract()),
+                        _ => match x.to_int() {
+                            Approximation::Exact(t) => (t, <$T>::ZERO),
+                            Approximation::Inexact(t, f) => (t, f),
+                        },
+                    };
+                    w.i[dst] = t;
+                    w.$pool[d2] = f;
+                    env.res(Pool::I, dst);
+                    env.res(pid, d2);
+                }
+                "zeroes" => {
+                    // zero (and the value itself) reached through the mixed operators, which build the fraction directly:
+                    // k*m/m - k = 0/m', next to the canonical zero, and (v - k) + k next to v
+                    let d2 = (dst + 1) % NP;
+                    let m = &w.u[b] | UBig::ONE;
+                    if m.bit_len() > 2000 || w.i[a].bit_len() > 2000 {
+                        return env.skip();
+                    }
+                    let k = w.i[a].clone();
+                    let v = <$T>::from_parts(&k * IBig::from(m.clone()), m.clone());
+                    match form % 5 {
+                        0 => {
+                            w.$pool[dst] = v - k.clone();
+                            w.$pool[d2] = <$T>::ZERO;
+                        }
+                        1 => {
+                            w.$pool[dst] = &v - &k;
+                            w.$pool[d2] = <$T>::ZERO;
+                        }
+                        2 => {
+                            // unsigned integer on the right
+                            let ku = k.clone().unsigned_abs();
+                            let vu = <$T>::from_parts(IBig::from(&ku * &m), m.clone());
+                            w.$pool[dst] = vu - ku;
+                            w.$pool[d2] = <$T>::ZERO;
+                        }
+                        3 => {
+                            w.$pool[dst] = k.clone() - v;
+                            w.$pool[d2] = <$T>::ZERO;
+                        }
+                        _ => {
+                            let x = w.$pool[ix(op.c)].clone();
+                            let moved = (&x - &k) + &k;
+                            w.$pool[dst] = moved;
+                            w.$pool[d2] = x;
+                        }
+                    }
+                    env.res(pid, dst);
+                    env.res(pid, d2);
                 }
                 "toint" => {
                     let r = w.$pool[a].to_int();
